@@ -76,7 +76,8 @@ static Val randomValue(Rng& r, const FSpec& fs, const std::vector<Val>& alpha) {
 static void run(Ctx& c) {
     Rng& r = c.rng;
     bool rel = r.chance(1, 2);
-    Shape sh = rel ? randomShape(r, 1, 4, 4, 36) : randomShape(r, 1, 5, 5, 1024);
+    Shape sh = rel ? randomShapeW(r, 1, 4, 4, 36) : randomShapeW(r, 1, 5, 5, 1024);
+    if (sh.sizes.size() > 1 && *std::max_element(sh.sizes.begin(), sh.sizes.end()) >= 10) c.count("wide_variable_shapes");
     std::vector<FSpec> kinds = allKinds(rel);
     FSpec fs = kinds[r.below(kinds.size())];
     randomPolicy(r, fs);
